@@ -160,10 +160,10 @@ theorem issueMissing_ready {s : State} (h : Ready s) (r : ReqId) (k : KeyId) (mu
     (hr : s.co r = none) : Ready (issueMissing s r k mux t) := by
   unfold issueMissing
   simp only []
-  have key : ∀ (chk : Checkout) (conn : List Token), chk.conn = none →
+  have key : ∀ (chk : Checkout) (conn : List Token) (att : Nat) (own : Token → Nat), chk.conn = none →
       Sub { s with waiting := upd s.waiting t (s.waiting t ++ [r]), chan := upd s.chan r .empty,
-                   connecting := conn, co := upd s.co r (some chk) } s := by
-    intro chk conn hcn
+                   connecting := conn, attempts := att, owner := own, co := upd s.co r (some chk) } s := by
+    intro chk conn att own hcn
     refine Sub.of_fields rfl ?_ ?_ (fun _ _ h => h) (fun _ _ _ _ h => h) (fun _ _ => Nat.le_refl _)
     · intro r' p hp
       by_cases e : r' = r
@@ -174,8 +174,8 @@ theorem issueMissing_ready {s : State} (h : Ready s) (r : ReqId) (k : KeyId) (mu
       · subst e; simp only [upd_same, Option.some.injEq] at hc'; subst hc'; rw [hcn] at hcc; cases hcc
       · exact ⟨chk', by simpa [upd, e] using hc', hcc⟩
   split
-  · exact h.sub_eq (key _ _ rfl) rfl
-  · split <;> exact h.sub_eq (key _ _ rfl) rfl
+  · exact h.sub_eq (key _ _ _ _ rfl) rfl
+  · split <;> exact h.sub_eq (key _ _ _ _ rfl) rfl
 
 theorem issue_ready {s : State} (h : Ready s) (r : ReqId) (k : KeyId) (mux : Bool) (hr : s.co r = none) :
     Ready (issue s r k mux) := by
